@@ -47,6 +47,7 @@ Spec == Init /\ [][Next]_vars
 
 \* alone, a goroutine's k-th call sees only its own writes; with disjointness it sees version 0 everywhere
 NonInterference == \A p \in Procs : \A x \in DOMAIN res[p] : lastW[x] \in {0, p}
-RaceFree == \A f \in Fns : WritesOf[f] = {}
+RaceFree == \A f \in FnNames : WritesOf[f] = {}
+RaceFreeInv == (pc = pc) /\ RaceFree      \* as a state predicate, so that TLC reports it as an invariant violation
 NoSharedWrites == \A x \in Globals : lastW[x] = 0
 =============================================================================
